@@ -22,7 +22,9 @@ impl UserDefinedTransformer {
         for (pattern, template) in &self.rules {
             let mut substitutions = HashMap::new();
             if pattern.match_datum(&datum, 0, &self.literals, &mut substitutions)? {
-                let mut substituded = template.substitude(&substitutions)?;
+                // data built from the template are located at the macro use, not in the
+                // text that defined the macro
+                let mut substituded = template.substitude(&substitutions, datum.location)?;
                 if substituded.len() != 1 {
                     return located_error!(
                         SyntaxError::TransformOutMultipleDatum,
@@ -308,8 +310,8 @@ impl SyntaxTemplate {
     pub fn substitude(
         &self,
         substitutions: &HashMap<String, (Datum, Vec<Datum>)>,
+        location: Option<[u32; 2]>,
     ) -> Result<Vec<Datum>, SchemeError> {
-        let location = self.location;
         match &self.data {
             SyntaxTemplateBody::Pair(list) => {
                 let mut substituted_pair_items = vec![];
@@ -319,14 +321,15 @@ impl SyntaxTemplate {
                             SyntaxTemplate::substitute_template_element(
                                 &template_element,
                                 substitutions,
+                                location,
                             )?,
                         ),
                         PairIterItem::Improper(SyntaxTemplateElement(last, false)) => {
-                            substituted_pair_items.extend(last.substitude(substitutions)?)
+                            substituted_pair_items.extend(last.substitude(substitutions, location)?)
                         }
                         _ => {
                             return error!(SyntaxError::UnexpectedDatum(
-                                DatumBody::Symbol("...".to_string()).locate(self.location)
+                                DatumBody::Symbol("...".to_string()).locate(location)
                             ))
                         }
                     }
@@ -343,6 +346,7 @@ impl SyntaxTemplate {
                     substituted_vec.extend(SyntaxTemplate::substitute_template_element(
                         sub_template_element,
                         substitutions,
+                        location,
                     )?)
                 }
                 Ok(vec![DatumBody::Vector(substituted_vec).locate(location)])
@@ -364,6 +368,7 @@ impl SyntaxTemplate {
         template: &SyntaxTemplate,
         substitutions: &HashMap<String, (Datum, Vec<Datum>)>,
         item_index: usize,
+        location: Option<[u32; 2]>,
     ) -> Result<Option<Datum>, SchemeError> {
         Ok(match &template.data {
             SyntaxTemplateBody::Pair(list) => {
@@ -373,6 +378,7 @@ impl SyntaxTemplate {
                         &pair_item.get_inside().0,
                         substitutions,
                         item_index,
+                        location,
                     )? {
                         Some(sub_datum) => {
                             new_list_elements.push(pair_item.replace_inside(sub_datum))
@@ -384,18 +390,23 @@ impl SyntaxTemplate {
                     DatumBody::Pair(Box::new(GenericPair::from_pair_iter(
                         new_list_elements.into_iter(),
                     )?))
-                    .locate(template.location),
+                    .locate(location),
                 )
             }
             SyntaxTemplateBody::Vector(vec) => {
                 let mut new_vec = Vec::new();
                 for pair_item in vec.iter() {
-                    match Self::substitude_ellipsis_item(&pair_item.0, substitutions, item_index)? {
+                    match Self::substitude_ellipsis_item(
+                        &pair_item.0,
+                        substitutions,
+                        item_index,
+                        location,
+                    )? {
                         Some(sub_datum) => new_vec.push(sub_datum),
                         None => return Ok(None),
                     }
                 }
-                Some(DatumBody::Vector(new_vec).locate(template.location))
+                Some(DatumBody::Vector(new_vec).locate(location))
             }
             SyntaxTemplateBody::Identifier(var) => match substitutions.get(var) {
                 Some((_, vec)) => {
@@ -405,10 +416,10 @@ impl SyntaxTemplate {
                         vec.get(item_index).cloned()
                     }
                 }
-                None => Some(DatumBody::Symbol(var.clone()).locate(template.location)),
+                None => Some(DatumBody::Symbol(var.clone()).locate(location)),
             },
             SyntaxTemplateBody::Primitive(p) => {
-                Some(DatumBody::Primitive(p.clone()).locate(template.location))
+                Some(DatumBody::Primitive(p.clone()).locate(location))
             }
             SyntaxTemplateBody::Ellipsis => {
                 return located_error!(
@@ -422,21 +433,27 @@ impl SyntaxTemplate {
     fn substitute_template_element(
         template_element: &SyntaxTemplateElement,
         substitutions: &HashMap<String, (Datum, Vec<Datum>)>,
+        location: Option<[u32; 2]>,
     ) -> Result<Vec<Datum>, SchemeError> {
         match template_element {
             SyntaxTemplateElement(sub_template, true) => {
-                let mut result = sub_template.substitude(substitutions)?;
+                let mut result = sub_template.substitude(substitutions, location)?;
                 let mut suffix_item_index = 0;
-                while let Some(item) =
-                    Self::substitude_ellipsis_item(sub_template, substitutions, suffix_item_index)?
-                {
+                while let Some(item) = Self::substitude_ellipsis_item(
+                    sub_template,
+                    substitutions,
+                    suffix_item_index,
+                    location,
+                )? {
                     suffix_item_index += 1;
                     result.push(item)
                 }
                 Ok(result)
             }
 
-            SyntaxTemplateElement(sub_template, false) => sub_template.substitude(substitutions),
+            SyntaxTemplateElement(sub_template, false) => {
+                sub_template.substitude(substitutions, location)
+            }
         }
     }
 }
